@@ -7,5 +7,6 @@ int main(int argc, char **argv) {
     vf::install_crash_handler();
     RUN("scheduling_programs", 1, true, scn::scheduling_programs(o, R, o.cases));
     RUN("pool_stop_from_coroutine", 1, true, scn::pool_stop_from_coroutine(o, R, o.cases / 40 + 1));
+    RUN("bare_coroutine_programs", 1, true, scn::bare_coroutine_programs(o, R, o.cases));
     return 0;
 }
